@@ -16,7 +16,7 @@ from . import common, mcommon
 ID = "C12"
 NEEDS_MODEL = True
 LEVEL = "exploration"
-N = {"quick": 480, "thorough": 24000}
+N = {"quick": 800, "thorough": 24000}
 TECHNIQUE = ("runtime monitoring: offline trace-specification checker (produced-before-consumed, "
              "begin/end exactly once, intersector lifecycle) over the recorded event log of "
              "metrics-mode executions; shards run under different PYTHONHASHSEED values")
